@@ -58,10 +58,14 @@ def gen_case(rng, tier):
             conts.append(('upd2', tgt))
         elif r < 0.75:
             conts.append(('grow', None))
-        elif r < 0.9:
+        elif r < 0.82:
             conts.append(('reopen', None))
+        elif r < 0.9:
+            conts.append(('reopen_ro', None))
         else:
             conts.append(('overwrite_big', tgt))
+    if rng.random() < 0.3:
+        conts.insert(rng.randrange(len(conts) + 1), ('reopen_ro', None))
     fresh = iter(range(1000, 3000))
     for kind, tgt in conts:
         if kind == 'overwrite2':
@@ -89,6 +93,17 @@ def gen_case(rng, tier):
             cmds.append('maplen')
         elif kind == 'reopen':
             cmds.append('reopen')
+        elif kind == 'reopen_ro':
+            # values handed out by a collection opened read-only, held across its Close (the next reopen unmaps that mapping)
+            cmds.append('reopen ro')
+            live_now = sorted(spec)
+            for id_ in rng.sample(live_now, min(len(live_now), 3)):
+                cmds.append('get %d' % id_)
+            cmds.append('search %d 0 1 %s' % (rng.choice([1, 3]), qtext))
+            cmds.append('search %d 0 0 %s' % (rng.choice([1, 3]), qtext))
+            cmds.append('search 0 %d 0 %s' % (bits(10.0), qtext))
+            cmds.append('list 0 %d' % rng.choice([0, 2]))
+            cmds += ['verify', 'reopen']
         cmds += ['verify', 'callers']
     cmds.append('docs')
     final = dict(spec)
@@ -223,7 +238,7 @@ def check(tier, seed, replay=None):
     chk.cov.update({'programs': stats['histories'], 'evaluations': stats['values_reread'], 'distinct_nontrivial': len(distinct),
                     'rule': 'histories: build a collection (1..120 documents, all quantisations, metadata 1..1000 bytes), take values at every return site '
                             '(GetDocument, exact K/radius, default-precision K/radius, listing page), then 2..6 continuation blocks (overwrite twice with same-size data so that '
-                            'the freed span is reused, remove + refill, update twice, growth by large records = remap, reopen, large overwrite), then Close; after every block '
+                            'the freed span is reused, remove + refill, update twice, growth by large records = remap, reopen, reopen read-only with values taken there and held across its Close, large overwrite), then Close; after every block '
                             'all held values are re-read and all caller-supplied slices re-hashed. Non-trivial = at least one value held and re-read after a continuation',
                     'disagreements_checked': stats['values_held'], 'samples': samples, 'distribution': stats,
                     'correspondence': 'every returned slice lies outside the file mapping and outside caller memory' if corr is None else 'DIVERGED', 'proof_obligations_broken': broken})
